@@ -2775,6 +2775,15 @@ func (a *Agent) handlePeerConnected(conn *peer.Connection) {
 func (a *Agent) handlePeerDisconnect(conn *peer.Connection, err error) {
 	peerID := conn.RemoteID
 
+	// The cleanup below works by peer ID. If another connection to the same peer is
+	// registered, this notification is about a stale connection and the routes and
+	// relays belong to the live one.
+	if cur := a.peerMgr.GetPeer(peerID); cur != nil && cur != conn {
+		a.logger.Debug("ignoring disconnect of a replaced connection",
+			logging.KeyPeerID, peerID.ShortString())
+		return
+	}
+
 	a.logger.Info("peer disconnected",
 		logging.KeyPeerID, peerID.ShortString(),
 		logging.KeyError, err)
